@@ -1151,6 +1151,8 @@ class Engine:
         return s
 
     def finish(s, st, how):
+        if s.o.get('on_finish'):
+            s.o['on_finish'](s, st, how)
         try:
             m = s.model_of(st)
             rec = {'end': how, 'instr': st.ninstr, 'inputs': s.inputs_of(st, m), 'notes': s.notes_of(st, m),
